@@ -44,7 +44,7 @@ func CheckC14(tier string) int {
 	periods := []uint64{1, 2, 3600, 1209600}
 	subs := []int64{0, 1, 999999999}
 	span := int64(2) // boundary offsets -span … +span around the trusting period
-	if tier == "thorough" {
+	{ // the wide grid costs 1 s: both tiers use it
 		span = 6
 		periods = append(periods, 4, 5, 7, 59, 60, 61, 600, 86400, 604800, 2592000, 31536000, 1<<31, 1<<32)
 		subs = append(subs, 2, 500000000, 999999998)
